@@ -39,18 +39,21 @@ EXPLANATION = (
     'finding are REF_INVALID in both readers); checked_reader_roundtrip (the check keeps C08).  History: '
     'legacy_accepted_indices_in_range_counterexample / legacy_part_index_unchecked_counterexample keep the proofs that the '
     'readers before 6682479 (ugridCfgLegacy) accepted vertex 6 / 50000001 of 4 and had no status for a first vertex 5 of 4 '
-    'or nnode = 0.  Still open: part_count_overflow_counterexample (2^31-1 declared tets / 2^63-1 declared vertices overflow '
-    'int / long arithmetic of the parallel reader before any check).  Tie: c20_ugrid_mut — truncation at every section '
+    'or nnode = 0.  Since /repo commit 10247dc the parallel reader tests its seven counts against the file size right after '
+    'the header (expression regenerated into Gen/UgridOffsets.counts_fit): part_accepted_counts_fit, '
+    'part_counts_no_overflow_partial (for files below 2^33 bytes none of nnode + nproc, the offset sums, size_per * chunk '
+    'overflows; residual: a VALID file with more than 2^31/size_per cells per rank), count_witnesses_refused; '
+    'legacy_part_count_overflow_counterexample keeps the history.  Tie: c20_ugrid_mut — truncation at every section '
     'boundary, counts := {-1,0,2^31-1,...}, indices := {0, nnode+1, huge, INT_MIN,...}, tags, bit flips, trailing bytes on all '
     'six names: C status and dump == model for the static serial reader and for ref_part_by_extension at one rank wherever '
     'the model predicts a status; c20_ugrid_robust — the same mutants through ref_import_by_extension, import+export, '
     'ref_part_by_extension must return (10 s, 1 GiB, 300 MB touched); c20_ugrid_index — regression guard of the repaired '
     'finding ugrid-vertex-index-unchecked: the witness files must be refused with REF_INVALID (exact status, both readers), the '
     'entry points must return, and the ASCII .ugrid reader must refuse vertex index 0 / nnode+1 / huge and accept the valid '
-    'file (oracle: independent parse of the text; no model of the ASCII reader).  Streams c20_ugrid_count / c20_ugrid_sweep '
-    'replay the Lean witnesses (thorough: also the mutants of those classes) and currently FAIL in the real reader/writer: '
-    'KNOWN-FINDING sites ugrid-part-count-overflow, ugrid-export-faceid-range-sweep (findings/<site>/ has the files, the ops '
-    'and the proposed repair).')
+    'file (oracle: independent parse of the text; no model of the ASCII reader); c20_ugrid_count — regression guard of the '
+    'repaired finding ugrid-part-count-overflow (exact status failure; oracle: a file whose counts need more bytes than it '
+    'has is never accepted).  Stream c20_ugrid_sweep replays the Lean witness and currently FAILS in the real writer: '
+    'KNOWN-FINDING site ugrid-export-faceid-range-sweep (findings/<site>/ has the file, the ops and the proposed repair).')
 ASSUMPTIONS = [
     'the binary libMeshb readers (.meshb, .solb scalar and metric) and the binary UGRID readers (serial, parallel at one '
     'rank) are modelled; ascii ugrid, r8.ugrid, mapbc, text formats are not; file-name handling of *_by_extension is '
